@@ -300,17 +300,25 @@ def check_msin_compose(ctx, rule="TAB-MSIN"):
         return None
 
     eng.on_call = on_call
+    eng.keep_key = lambda x, fr: x[0] == "sym" and x[1] == "*self.verbose"
     outs = eng.call_path(p, eng.symbolic_args(b, names=["self"]))
-    ok = False
+    ok = bool(outs)
     for st, rv in outs:
+        good = False
         if isinstance(rv, Cont) and rv.segs and rv.segs[0][0] == "num" and rv.segs[0][1] == 1:
             v = rv.segs[0][3]
             bits = eng.bits_of(st, v) if isinstance(v, Int) else None
             if bits is not None:
                 hi = all(bits[i] == ("b", "MT", i) for i in range(1, 8))
                 b0 = bits[0]
-                lo = b0 is not None and b0 not in (0, 1) and "verbose" in repr(b0)
-                ok = hi and lo
+                # the verbose flag as a bit atom, or - when the code branches on it - the constant of the branch
+                known = [k[2] for k in st.key if k[0] == "sym" and k[1] == "*self.verbose"]
+                if known:
+                    lo = b0 == (1 if known[0] else 0)
+                else:
+                    lo = b0 is not None and b0 not in (0, 1) and "verbose" in repr(b0)
+                good = hi and lo
+        ok = ok and good
     if ok:
         R.obligation(rule, p + "|compose", "discharged", "MSIN bits 1..7 from the message-type encoder, bit 0 from the verbose flag")
         R.instance(rule, "extended-header writer: MSIN = message-type code | verbose")
